@@ -631,6 +631,8 @@ CHECKS = {
     ),
 }
 
+# streams handed out by the second-chance look-up / the re-loosened cache must be closed again (descriptor census, C18)
+CHECKS['C18']['cells'] = CHECKS['C18']['cells'] + [c for c in CHECKS['C04']['cells'] if c['name'].startswith(('seeker_p', 'seeker2'))]
 # sizes, lengths and bytes reported by the bulk calls under both look-up strategies are part of the round trip (C01)
 CHECKS['C01']['cells'] = CHECKS['C01']['cells'] + [c for c in CHECKS['C16']['cells'] if c['name'].startswith('bulk_check_v') and not c.get('thorough_only')]
 CHECKS['C02']['cells'] = CHECKS['C02']['cells'] + DIRECT_SHORT
